@@ -15,9 +15,14 @@ mod h {
         unsafe { COUNT[e as usize] as usize }
     }
 
-    fn handle(m: &SharedModuleData) -> TypedFunc<(), fn()> {
-        // the tail of Module::get_function
-        TypedFunc { func: core::ptr::null(), return_by_ref: false, _module: m.clone(), _ty: PhantomData }
+    fn handle(m: &Module<NoCtx>) -> TypedFunc<(), fn()> {
+        // the tail of Module::get_function (C04-U3): a handle shares `self.inner`
+        TypedFunc { func: core::ptr::null(), return_by_ref: false, _module: m.inner.clone(), _ty: PhantomData }
+    }
+    /// the package as the compiler produces it: ModuleBuilder::finalize (verbatim)
+    fn compile(roto_constants: HashMap<ResolvedName, RotoConstant>, constants: HashMap<ResolvedName, ConstantValue>, fns: Vec<Arc<Box<dyn Any>>>) -> Module<NoCtx> {
+        let b = ModuleBuilder { functions: HashMap { vals: [None, None], _k: PhantomData }, inner: JITModule, runtime_constants: constants, roto_constants, registered_fns: fns, type_info: TypeInfo };
+        b.finalize::<NoCtx>()
     }
 
     /// a package with 2 script constants, 1 registered constant, 1 registered closure; the package
@@ -31,7 +36,7 @@ mod h {
         let roto_constants = HashMap { vals: [Some(RotoConstant::new(8, 8, const_drop)), Some(RotoConstant::new(24, 8, const_drop))], _k: PhantomData };
         let constants = HashMap { vals: [Some(ConstantValue), None], _k: PhantomData };
         let fns: Vec<Arc<Box<dyn Any>>> = vec![Arc::new(Box::new(Closure) as Box<dyn Any>)];
-        let package = SharedModuleData::new(JITModule, constants, roto_constants, fns);
+        let package = compile(roto_constants, constants, fns);
         let h1 = handle(&package);
         let h2 = h1.clone();
         let mut owners: [Option<Owner>; 3] = [Some(Owner::Package(package)), Some(Owner::Handle(h1)), Some(Owner::Handle(h2))];
@@ -39,6 +44,7 @@ mod h {
         let mut step = 0;
         while step < 3 {
             assert!(count(FREE_MEMORY) == 0 && count(CONST_DROP_FN) == 0, "OBL:C11.drop.nothing_is_released_while_an_owner_is_alive");
+            assert!(count(REGISTERED_FN) == 0 && count(RUNTIME_CONST) == 0, "OBL:C11.drop.closure_state_and_registered_constants_live_as_long_as_any_owner");
             drop(owners[perm[step]].take());
             step += 1;
         }
@@ -84,7 +90,7 @@ mod h {
         reset();
         let roto_constants = HashMap { vals: [Some(RotoConstant::new(0, 1, const_drop)), None], _k: PhantomData };
         let constants = HashMap { vals: [None, None], _k: PhantomData };
-        let package = SharedModuleData::new(JITModule, constants, roto_constants, Vec::new());
+        let package = compile(roto_constants, constants, Vec::new());
         let h1 = handle(&package);
         drop(package);
         assert!(count(CONST_DROP_FN) == 0 && count(FREE_MEMORY) == 0, "OBL:C11.drop.zero_sized_constant_kept_while_a_handle_lives");
@@ -95,7 +101,7 @@ mod h {
     }
 
     enum Owner {
-        Package(SharedModuleData),
+        Package(Module<NoCtx>),
         Handle(TypedFunc<(), fn()>),
     }
 
@@ -105,7 +111,7 @@ mod h {
         reset();
         let roto_constants = HashMap { vals: [Some(RotoConstant::new(8, 8, const_drop)), None], _k: PhantomData };
         let constants = HashMap { vals: [None, None], _k: PhantomData };
-        let package = SharedModuleData::new(JITModule, constants, roto_constants, Vec::new());
+        let package = compile(roto_constants, constants, Vec::new());
         let h1 = handle(&package);
         drop(package);
         drop(h1);
